@@ -189,7 +189,7 @@ class Env:
 
     def __enter__(self):
         from unittest import mock
-        if self.name == 'outer-trace':
+        if self.name in ('outer-trace', 'only-the-import-is-threaded+outer-trace'):
             old = sys.gettrace()
             sys.settrace(_outer_trace)
             self.undo.append(lambda: sys.settrace(old))
@@ -528,7 +528,7 @@ def drive(sandbox, entry, case):
         if case.get('env') == 'before-and-after-code':
             # the instructor wraps the student's program between two snippets of her own
             return sbx.run(inputs=case.get('inputs'), before="pre_marker = 1", after="post_marker = 2")
-        if case.get('env') == 'only-the-import-is-threaded':
+        if case.get('env') in ('only-the-import-is-threaded', 'only-the-import-is-threaded+outer-trace'):
             return sbx.run(inputs=case.get('inputs'), threaded=False)
         return sbx.run(inputs=case.get('inputs'))
     if entry == 'run-code':
@@ -680,7 +680,7 @@ def _measured(ctx, which, case, sandbox, report, files, inputs, n_rt_before):
     if which == 'C05':
         ctx.count('state_comparisons')
         for what, detail in diffs:
-            if what == 'sys.gettrace' and envname == 'outer-trace' and mode.startswith('RecursionError'):
+            if what == 'sys.gettrace' and envname.endswith('outer-trace') and mode.startswith('RecursionError'):
                 # CPython itself removes a trace function that raises, and the harness's own trace function raises
                 # RecursionError when the student's recursion exhausts the stack: not pedal's doing
                 ctx.count('gettrace_not_judged_recursion_in_outer_trace')
@@ -900,6 +900,11 @@ def case_matrix(ctx, which):
                             c = dict(m)
                             c.update(entry=entry, tracer=tracer, threaded=threaded, position=pos, env='only-the-import-is-threaded')
                             cells.append(c)
+                            if pos == 'first' and tracer != 'none':
+                                # ... while the grader runs under a trace function of her own (a debugger, a coverage measurement)
+                                c = dict(c)
+                                c['env'] = 'only-the-import-is-threaded+outer-trace'
+                                cells.append(c)
     return cells
 
 
@@ -929,6 +934,8 @@ def _run(ctx, which):
     def plain(c):
         if c['env'] == 'only-the-import-is-threaded' and c['kind'] in ('timeout', 'base') and c['position'] == 'first':
             return True                 # (every tracer style: the trace function is per thread, and two threads are involved)
+        if c['env'] == 'only-the-import-is-threaded+outer-trace' and c['mode'] in ('ok-print', 'ok-silent', 'ZeroDivisionError', 'timeout-busy-loop', 'base-KeyboardInterrupt', 'exit-sys-exit'):
+            return True
         if c['kind'] == 'timeout':      # time limits exist only in threaded executions: every history position, plain configuration
             return c['tracer'] == 'none' and c['env'] == 'plain'
         return c['tracer'] == 'none' and not c['threaded'] and c['position'] == 'first' and c['env'] == 'plain'
